@@ -258,7 +258,8 @@ func (m *Model) Call(op int, arg Val) Val {
 	m.Calls++
 	m.seen++
 	// reservoir-free deterministic sampling: keep small cases, every k-th
-	if len(b.String()) < 4000 && (m.seen%coqSampleEvery == 0 || len(m.samples) < 20) && len(m.samples) < coqSampleMax {
+	failed := v.IsList && len(v.L) == 1 && !v.L[0].IsList && (v.L[0].I == -2 || v.L[0].I == -9) // driver stack overflow / died: not an answer
+	if !failed && len(b.String()) < 4000 && (m.seen%coqSampleEvery == 0 || len(m.samples) < 20) && len(m.samples) < coqSampleMax {
 		m.samples = append(m.samples, coqCase{op, arg, v})
 	}
 	m.sampleMu.Unlock()
